@@ -104,4 +104,10 @@ var specs = map[string]propSpec{
 		Rule: "rapid generates a schema (nesting <= 3, descriptions on attributes / blocks / labels / dependent bodies, dependent bodies boosted, extensions) and 1-2 files rendered from it (layout stress, half-typed values, 45% with token-level edits); HoverAtPos runs at every character boundary (<= 400 per file). Always: a result is an error, nothing, or non-empty content with a valid range (C02 rules) that contains the cursor. With the model (effective schema from the serialisable model + parser AST, cursor classified by the harness): on a known attribute name -> content starts with **name**, carries the effective schema's description, range = whole attribute; on a known block type -> **type**, description, range = type keyword; on a label within the schema's labels -> content names the label value, carries the selected dependent body's description (else the label's), range = the label; on unknown attributes / blocks / surplus labels -> nothing; inside a value -> the range lies inside the value. evaluations = positions. Non-trivial = at least one hover returned data; distinct = SHA-1 of the case JSON.",
 		Assumptions: append([]string{"value-level content (which sub-expression is described) is only bounded by range containment, not compared with a model", "dynamic blocks and declared-vs-extension attribute clashes: don't care"}, commonAssumptions...),
 	},
+	"C07": {
+		Test: "TestC07", Quick: 1000, Thorough: 6000, Shards: 16,
+		QuickTimeout: 10 * time.Minute, ThoroughTimeout: 40 * time.Minute,
+		Rule: "rapid generates a schema (nesting <= 3; dependent bodies keyed by labels, attribute values, defaults, references and a second level, boosted; any-attribute bodies; extensions; attribute/block name clashes; min/max items; computed-only attributes) and a file rendered from it with ~10% violations, into which blank lines and half-typed names are sprinkled; 40% of cases get a token-level edit. The harness classifies every character boundary on the parser AST (inside an attribute name, a block type, a label, on a blank line, at a half-typed name alone on its line) and computes the typed prefix from the text. Reference model on the serialisable schema: effective schema = static body overlaid with the dependent body selected by the harness's own key computation; expected candidates = attributes (not declared, not read-only) + count/for_each (extension on, not declared) + block types (below max items, attribute wins a clash) with the prefix, sorted, duplicate free; in a completable label the distinct dependent-body label values with the prefix; nothing in a non-completable label. Compared as ordered lists with CompletionAtPos. Acceptance: up to 6 candidates per case are applied (snippet expanded), the file re-parsed and ValidateFile must not report more unexpected/too-many diagnostics than before. evaluations = cursors compared. Non-trivial = at least two cursor classes exercised; distinct = SHA-1 of the case JSON.",
+		Assumptions: append([]string{"don't care: the `name` placeholder of any-attribute bodies; `dynamic` where the dynamic-blocks extension is in force; regions with undetermined dependent-body selection; lists above the limit (C06)"}, commonAssumptions...),
+	},
 }
